@@ -59,7 +59,7 @@ func run(e *harness.Env) {
 	partB(e)
 }
 
-// inQuick prunes part (B) for the quick tier (part (A) is always run in full): near-band distance 80 only, no page
+// inQuick prunes part (B) for the quick tier (part (A) only drops the uniform A4 size): near-band distance 80 only, no page
 // pairs of 4-page documents, mixed page sizes only with three APIs / both sides / no pairs, and for the single-side
 // modes only three of the eight result APIs on {all pages, last page alone} of documents of up to 3 pages.
 func inQuick(P int, body bodyKind, size string, sub []int, mode, api string) bool {
@@ -143,8 +143,8 @@ func partA(e *harness.Env) {
 			for _, pn := range pnKinds(e.Thorough()) {
 				for _, body := range bodyKinds() {
 					for _, size := range []string{"letter", "a4", "mixed"} {
-						if !inSpace(P, hdr, pn, body, size) {
-							continue
+						if !inSpace(P, hdr, pn, body, size) || (!e.Thorough() && size == "a4") {
+							continue // quick: Letter and mixed page sizes only
 						}
 						for _, order := range []string{"top-down", "bottom-up"} {
 							desc := harness.D("part", "frag", "P", P, "hdr", hdr, "pn", pn.style, "pnpos", pn.pos, "body", body.name, "off", body.off, "size", size, "order", order)
@@ -281,7 +281,7 @@ func checkFragments(d *ldoc, order string) (sig, detail, outcome string) {
 		}
 	}
 	// 3. the documented per-page loop on the same shared data
-	for p := 0; p < d.P; p++ {
+	for p := 0; p < d.P && order == "top-down"; p++ {
 		base := layout.NewAnalyzer().Analyze(append([]text.TextFragment{}, orig[p].Fragments...), d.PW, d.PHs[p])
 		got := layout.NewAnalyzer().AnalyzeWithHeaderFooterFiltering(pages, p)
 		if ok, why := samePages(pages, orig); !ok {
